@@ -725,7 +725,7 @@ pub fn run(ctx: &mut Ctx) {
     }
     // (a) histories of the behavioural monitors
     let mut rng = ctx.rng("c17");
-    let scale = ctx.tier_pick(1u64, 12);
+    let scale = ctx.tier_pick(1u64, 120);
     for i in 0..(6 * scale) {
         let lg_k = rng.range(4, 12);
         let k = 1u64 << lg_k;
